@@ -677,3 +677,53 @@ def c09i(ctx):
     ab = ctx.fn(L + ':GlobalConfiguration.abspath')
     ok = ok and any(is_call(x, 'os.path.join') and x.args and 'conf_base_dir' in unparse(x.args[0]) for x in ab.walk())
     ctx.check(ok, 'GlobalConfiguration.get_path:anchors', 'get_path joins the value with the configuration base directory', gp)
+
+
+@rule('C09.j', floor=8)
+def c09j(ctx):
+    """tile data is written below the directory configured *for that cache*: CacheConfiguration.cache_dir honours the documented
+    precedence -- `cache.directory` of the cache, else the cache's own `cache_dir`, else globals.cache.base_dir -- and a `filename`
+    of the single-file backends (mbtiles, geopackage) that is a plain relative name, with or without sub directories, is placed
+    below that directory; only the explicit `./name` spelling means "next to the configuration file".  Decided by partial
+    evaluation: the functions are specialised for sample configurations and the statement that remains is inspected"""
+    L = 'mapproxy/config/loader.py:CacheConfiguration.'
+    cd = ctx.fn(L + 'cache_dir')
+    DIRECTORY = "self.conf.get('cache', {}).get('directory')"
+    samples = [({DIRECTORY: 'dir_option', "self.conf.get('cache_dir')": None}, 'directory'),
+               ({DIRECTORY: 'dir_option', "self.conf.get('cache_dir')": 'own_option'}, 'directory'),
+               ({DIRECTORY: None, "self.conf.get('cache_dir')": 'own_option'}, 'own-or-global'),
+               ({DIRECTORY: None, "self.conf.get('cache_dir')": None}, 'own-or-global')]
+    for bind, want in samples:
+        sp = ctx.repo.specialise(cd, bind)
+        rets = [r.value for r in returns_of(sp.node) if r.value is not None]
+        got = []
+        for v in rets:
+            if is_call(v, 'self.context.globals.abspath') and v.args and const_value(v.args[0]) == 'dir_option':
+                got.append('directory')
+            elif is_call(v, 'self.context.globals.get_path') and len(v.args) >= 2 and const_value(v.args[0]) == 'cache_dir' and \
+                    unparse(v.args[1]) == 'self.conf' and const_value(keyword(v, 'global_key', 2)) == 'cache.base_dir':
+                got.append('own-or-global')
+            else:
+                got.append('other: ' + unparse(v)[:60])
+        label = 'directory=%s,cache_dir=%s' % ('set' if bind[DIRECTORY] else 'unset', 'set' if bind["self.conf.get('cache_dir')"] else 'unset')
+        ctx.check(got == [want], 'CacheConfiguration.cache_dir:precedence[%s]' % label,
+                  'with %s the cache directory is %s' % (label, 'abspath(cache.directory)' if want == 'directory' else
+                                                         "get_path('cache_dir', conf, global_key='cache.base_dir')"), cd,
+                  fail='with %s cache_dir() returns %s: the cache is created in another directory than the one configured for it' % (label, got))
+    for m, var, key in (('_mbtiles_cache', 'mbfile_path', "self.conf['cache'].get('filename')"),
+                        ('_geopackage_cache', 'gpkg_file_path', "self.conf['cache'].get('filename')")):
+        fn = ctx.fn(L + m)
+        for sample, want in (('tiles.db', 'cache-dir'), ('sub/tiles.db', 'cache-dir'), ('a/b/tiles.db', 'cache-dir'), ('./tiles.db', 'config-dir')):
+            sp = ctx.repo.specialise(fn, {key: sample, 'os.sep': '/', 'os.path.sep': '/'})
+            vals = [st.value for st in sp.walk() if isinstance(st, ast.Assign) and any(isinstance(t, ast.Name) and t.id == var for t in st.targets)]
+            got = []
+            for v in vals:
+                if is_call(v, 'os.path.join') and len(v.args) == 2 and is_call(v.args[0], 'self.cache_dir') and const_value(v.args[1]) == sample:
+                    got.append('cache-dir')
+                elif is_call(v, 'self.context.globals.abspath') and v.args and const_value(v.args[0]) == sample:
+                    got.append('config-dir')
+                else:
+                    got.append('other: ' + unparse(v)[:60])
+            ctx.check(got == [want], 'CacheConfiguration.%s:filename[%s]' % (m, sample),
+                      'filename %r is placed %s' % (sample, 'below cache_dir()' if want == 'cache-dir' else 'relative to the configuration file'), fn,
+                      fail='filename %r resolves to %s: the database is created outside the directory configured for the cache' % (sample, got))
